@@ -2,14 +2,14 @@ use std::borrow::Cow;
 
 use bstr::{ByteSlice, ByteVec};
 
-/// The final component of the path, if it is a normal file.
+/// The final component of the path.
 ///
-/// If the path terminates in `.`, `..`, or consists solely of a root of
-/// prefix, file_name will return None.
+/// If the path is empty or terminates in `/`, file_name will return None.
+/// A final component of `.` or `..` is returned like any other name, since
+/// glob matching is purely textual: a glob like `?.` matches the path `..`.
 pub(crate) fn file_name<'a>(path: &Cow<'a, [u8]>) -> Option<Cow<'a, [u8]>> {
     let last_slash = path.rfind_byte(b'/').map(|i| i + 1).unwrap_or(0);
-    let name = &path[last_slash..];
-    if name.is_empty() || name == b"." || name == b".." {
+    if last_slash == path.len() {
         return None;
     }
     Some(match *path {
